@@ -72,6 +72,8 @@ M = [
  ('C03', 's04-expanded-env-shared-and-published-early', 'rebench/model/run_id.py',
   "        self._expandend_env = {\n            key: expand_user(value, False)\n            for key, value in self.benchmark.run_details.env.items()}",
   "        details = self.benchmark.run_details\n        if getattr(details, 'expanded_env', None) is None:\n            details.expanded_env = dict(details.env)\n            for key, value in details.env.items():\n                if '~' in value:\n                    details.expanded_env[key] = expand_user(value, False)\n        self._expandend_env = details.expanded_env"),
+ ('C03', 's05-input-size-digit-string-to-int', 'rebench/persistence.py',
+  '        if input_size == "":\n            input_size = None', '        if isinstance(input_size, str) and input_size.isdigit():\n            input_size = int(input_size)\n        if input_size == "":\n            input_size = None'),
  # ---------------------------------------------------------------- C20
  ('C20', 'n01-no-finally', 'rebench/rebench.py',
   "            finally:\n                restore_noise(denoise_result, show_denoise_warnings, self.ui)",
